@@ -13,11 +13,14 @@ RULE = ("qmail-pop3d: every message over {LF,'.',a,CR} up to length %s retrieved
         "(empty; new/ and cur/; dot-leading lines; no final newline; empty file; CRLF content; equal mtimes; dot files; mtime = now and in the future; "
         "old and fresh tmp/ files), each ended by QUIT or by a dropped connection; refusal as uid 0 / without a maildir; %s seeded random sessions "
         "(random maildirs up to 12 messages, files removed by a third party between commands, input cut into arbitrary read sizes, unfinished last line). "
+        "now and then a maildir of 20-49 messages. prioq.c driven directly: every insertion order of up to 6 entries over 4 time stamps, and seeded random "
+        "histories of up to 400 prioq_insert/prioq_delmin calls (few or many equal keys), array and removals compared with the model, oracle = every delmin "
+        "removes a minimum, nothing lost or invented, the drain is sorted. "
         "qmail-popup: every command sequence up to length %s over a 23-command alphabet, subprogram exiting 0/1/3/111 or crashing, plus %s random dialogues. "
         "The real main() of both programs (ASan+UBSan build of the working tree) is compared with the Lean model Nq.Pop3 on bytes written, exit code, "
         "bytes on descriptor 3 and the maildir afterwards; the oracle is the RFC 1939 reference Nq.Pop3Ref (client-side decoder popDecode, reference "
         "session, expected maildir) evaluated on the implementation's transcript for every numbering that is a mtime-sorted permutation of the "
-        "messages present at start-up; STAT's message count is not compared. non-trivial = distinct session with at least two events and a reply "
+        "messages present at start-up; STAT's total is compared, STAT's message count is not; LAST must report the highest number marked since the last RSET. non-trivial = distinct session with at least two events and a reply "
         "beyond the greeting / distinct dialogue that reached the checker")
 
 TIERS = {"quick": dict(pop3d="3 40000", popup="3 1500", fmt=(6, 3, 40000, 3, 1500)),
@@ -43,8 +46,14 @@ def popup_case_from_report(d):
     return "U %s %s %s" % (d.get("host", "68"), d.get("child", "e0"), d.get("in", "-"))
 
 
+def heap_case_from_report(d):
+    return "P H %s" % d.get("in", "-")
+
+
 def case_of(line):
     d = kv(line)
+    if " heap " in line or "kind=heap" in line:
+        return heap_case_from_report(d)
     return popup_case_from_report(d) if (" popup " in line or "kind=popup" in line) else pop3d_case_from_report(d)
 
 
@@ -102,6 +111,8 @@ def main():
                     k = kv(d)
                     if " popup " in d:
                         cases.add(popup_case_from_report(k)); continue
+                    if " heap " in d:
+                        cases.add(heap_case_from_report(k)); continue
                     cases.add(pop3d_case_from_report(k))
                     evs = [e for e in k.get("in", "-").split(",") if e != "-"]
                     for cut in (len(evs), max(0, len(evs) - 1)):
@@ -147,7 +158,7 @@ def main():
     # failures that need a number >= 2^64 in the dialogue are one class (scan_ulong wrap-around in msgno/pop3_top)
     wrap = [o for o in oracle if "kind=wrap" in o]
     other = [o for o in oracle if "kind=wrap" not in o]
-    hint = "./check C19 --replay <this file>   (replay_cases: 'P <uid> <havedir> <files> <events>' for harness/c19_pop3d.c, 'U <host> <child> <input>' for harness/c19_popup.c)"
+    hint = "./check C19 --replay <this file>   (replay_cases: 'P <uid> <havedir> <files> <events>' or 'P H <heap ops>' for harness/c19_pop3d.c, 'U <host> <child> <input>' for harness/c19_popup.c)"
     if other:
         first = shortest(other)
         c.violation("property oracle fails on the implementation's output",
